@@ -25,17 +25,19 @@ ASSUMPTIONS = [
 ]
 
 MANIFEST = {
-    "text": "Coq (Properties_C19_yl.v): ModHash.v transcribes ly_ctx_get_modules_hash() with lysp_feature_next() and its never "
-            "reset index; modhash never runs out of fuel and equals the one-at-a-time hash of the concatenated strings; "
-            "equal ordered observables give equal hashes; name, revision and implemented byte of every module and (fixed "
-            "code) every enabled feature change the byte stream; as coded the features of every module but the first are "
-            "skipped (general theorem + witness 2169919692), and the stream is not injective (witnesses 2151593976, "
-            "3673482515) while the NUL-delimited encoding is; the uint16_t counter differs after 1..65535 events and wraps "
-            "after 65536; YangLib.v: describe/rebuild with the round-trip theorem under imports_pinned. Tie: extracted model "
-            "vs ly_ctx_get_modules_hash on generated contexts (records read back from the context), yang-library entries "
-            "and rebuilt contexts vs describe/rebuild; oracles on the API for sensitivity, counter and round trip.",
+    "text": "Coq (Properties_C19_yl.v): ModHash.v transcribes ly_ctx_get_modules_hash() with lysp_feature_next() (index reset "
+            "per module since /repo c8adb05); modhash never runs out of fuel and equals the one-at-a-time hash of the "
+            "concatenated strings; equal ordered observables give equal hashes; name, revision, implemented byte and every "
+            "enabled feature of every module change the byte stream (C19_modhash_stream_reads_every_feature, unconditional; "
+            "the former refutation witness is a regression example: 2926982747 vs 2169919692); the stream is not injective "
+            "(witnesses 2151593976, 3673482515, finding yl-hash-concat) while the NUL-delimited encoding is; the uint16_t "
+            "counter differs after 1..65535 events and wraps after 65536; YangLib.v: describe/rebuild with the round-trip "
+            "theorem under imports_pinned. Tie: extracted model vs ly_ctx_get_modules_hash on generated contexts (records "
+            "read back from the context), yang-library entries and rebuilt contexts vs describe/rebuild; oracles on the API "
+            "for hash sensitivity, change counter (also under LY_CTX_EXPLICIT_COMPILE, fixed in d4e18d7) and round trip.",
     "note": "Not modelled: compilation, deviations, submodule entries, datastore list, search directories, "
-            "LY_CTX_ALL_IMPLEMENTED/REF_IMPLEMENTED, the revision-less import logic beyond the unambiguous case. Known findings: "
-            "yl-hash-fi, yl-hash-concat, yl-cc-explicit-compile, yl-import-only-rev.",
+            "LY_CTX_ALL_IMPLEMENTED/REF_IMPLEMENTED, the revision-less import logic beyond the unambiguous case, the exact "
+            "number of counter events per operation. Known findings: yl-hash-concat, yl-import-only-rev; fixed: yl-hash-fi "
+            "(c8adb05), yl-cc-explicit-compile (d4e18d7).",
     "technique": "Coq proof over hand-written model + differential correspondence (extracted OCaml vs C) + API oracles",
 }
